@@ -172,6 +172,8 @@ class Folder:
             return self.enum_table(c).by_name(t[2])
         if k == "class":
             return Callable_(t)
+        if k == "clsparam":
+            return Callable_(("class", t[1]))
         if k in ("builtin", "func", "closure", "ext", "newtype", "boundcls"):
             return Callable_(t)
         if k == "cattr":
